@@ -40,10 +40,16 @@ def check(run: Run, prog: Program, model: Model, tier: str) -> None:
         "(explicit raises of inlined callees and partial operations under the established kinds)."
         " Two members deep, the schema of member j is the conversion of member j; a plain value is refused only for a documented trait; the float validator keeps the documented tolerance.")
     run.explanation += ' The fixed-value comparison of the produced schema class must be on the value and the prop themselves (no image such as value.date()).'
+    run.explanation += ' MEMBER-VISITED (shared with C02).'
     run.rule_text = ("one obligation per (input kind, clause); non-trivial = needed inlining of the schema constructor / "
                      "element-fact propagation through the comprehension")
+    from ..entry import entry_transparent
+    entry_transparent(run, prog, model, "validate", "VALIDATE-ENTRY")
     run.trusted += ["partial-operation table", "uuid.UUID.version exists on every UUID"]
     fn = prog.func("d42.utils._from_native.from_native")
+    # "rejects every value that differs in kind" at any position: the container validators dispatch every member
+    from .c02 import _member_visited
+    _member_visited(run, prog, model, "Validator")
     results: Dict[str, List[Path]] = {}
     for kind, want in KINDS:
         it = Interp(prog, model, unroll=1, max_depth=7)
@@ -235,7 +241,8 @@ def check(run: Run, prog: Program, model: Model, tier: str) -> None:
 
 
 
-def native_contract(run: Run, prog: Program, model: Model, tier: str, why: str) -> None:
+def native_contract(run: Run, prog: Program, model: Model, tier: str, why: str,
+                    rules: Tuple[str, ...] = ("ARM", "FINAL")) -> None:
     """The substitution analyses summarise from_native by its contract (returns a schema that accepts the very value it
     was given, or raises ValueError).  The properties that lean on that summary re-derive it here, so a change of the
     conversion that breaks the contract is reported under the property whose clause it breaks too."""
@@ -245,10 +252,10 @@ def native_contract(run: Run, prog: Program, model: Model, tier: str, why: str) 
     n = 0
     for o in sub.obs:
         rule = o.rule.split(".", 1)[1]
-        if rule not in ("ARM", "FINAL"):
+        if rule not in rules:
             continue
         n += 1
-        c = f"{o.construct}: conversion contract"
+        c = f"{o.construct}: conversion contract" + ("" if rule in ("ARM", "FINAL") else f" ({rule})")
         if o.status == VIOLATED:
             run.violated("NATIVE-CONTRACT", c, o.site, f"{o.detail} - {why}", witness=o.witness)
         elif o.status == UNDECIDED:
@@ -420,7 +427,7 @@ MUTANTS = [
      "edits": [(FN, "{key: from_native(val) for key, val in value.items()}", "{key: from_native(val) for key, val in value.items() if val is not None}")]},
     {"name": "final arm returns a schema", "rule": "FINAL",
      "edits": [(FN, "    else:\n        raise ValueError(value)", "    else:\n        return NoneSchema()")]},
-    {"name": "UUID arm loses version == 4", "rule": "ARM",
+    {"name": "UUID arm loses version == 4", "rule": "ONLY-VALUEERROR",
      "edits": [(FN, "    elif isinstance(value, UUID) and (value.version == 4):", "    elif isinstance(value, UUID):")]},
     {"name": "key guard removed (F14 reverted)", "rule": "ONLY-VALUEERROR",
      "edits": [(FN, "        if any(isinstance(key, (optional, type(...))) for key in value):\n            raise ValueError(value)\n", "")]},
